@@ -50,7 +50,7 @@ def generate(rng, tier):
     for c in cols:
         g["encode-forms"].append("CE #" + c)
         g["setcreg-roundtrip"].append("ED CR %d %d #%s" % (rng.below(7), 0, c))
-    for i in range(64):
+    for i in range(256):   # the constructors take a uint8 and keep its low six bits
         g["encode-forms"] += ["CE p%d" % i, "CE c%d" % i]
         g["setcreg-roundtrip"] += ["ED CR 0 1 p%d" % i, "ED CR 3 0 c%d" % i]
     for _ in range(2000):
@@ -69,7 +69,7 @@ def generate(rng, tier):
             pal = "%d:%s," % (c0 - 0x80, G.rrgba(rng)) + "63:010203ff" if (c0 - 0x80) < 63 else pal
         creg = sparse(rng, 6, G.rrgba)
         g["resolve"].append("RS b%02x%02x%02x %s %s" % (t, c0, c1, pal if pal.count(":") else "-", creg))
-    for c in ("p0", "p63", "c0", "c63", "#11223344"):
+    for c in ("p0", "p63", "c0", "c63", "#11223344", "p64", "p127", "p197", "c64", "c128", "c255"):
         g["resolve"].append("RS %s 0:aabbccdd,63:01020304 0:05060708,63:090a0b0c" % c)
     vals = [0, 1, 2, 3, 63, 64, 65, 127, 128, 255]
     for cb in vals:
